@@ -4008,6 +4008,8 @@ impl<'store> QueryIter<'store> {
             match self.init_state() {
                 Err(e) => {
                     eprintln!("STAM Query error: {}", e);
+                    #[cfg(feature = "verif")]
+                    crate::verif::note("query_error");
                     return StateStackStatus::Invalid;
                 }
                 Ok(StateStackStatus::NewState) => {
